@@ -619,8 +619,10 @@ struct CompletionsRequestHandler {}
 
 impl CompletionsRequestHandler {
     fn local_symbols(&self, conn: &DebugSession) -> MosResult<Vec<String>> {
+        // The running state first: the machine holds it while it executes, and asks for the program (to evaluate an
+        // assertion) while it does. Asking for them the other way round here would wait for each other.
+        let state = conn.machine_adapter()?.running_state()?;
         if let Some(codegen) = conn.codegen() {
-            let state = conn.machine_adapter()?.running_state()?;
             if let Some(scope) = current_scope(&state, &codegen)? {
                 return Ok(codegen
                     .symbols()
